@@ -91,13 +91,16 @@ def path_case(draw, n=(2, 4), raman=False, max_ch=40, multiband=False):
     comb = draw(spectra.comb(1, max_ch, f_start=(lo, int(si['f_max'] / 1e6) - 400000), power=(-6.0, 6.0),
                              f_stop=int(si['f_max'] / 1e6) + draw(st.sampled_from([0, 0, 100000]))))
     nli = draw(st.sampled_from(['gn_model_analytic'] * 4 + ['ggn_approx']))
+    # GGN evaluated on a few channels only and interpolated (held at the edge values) for the others; indices <= 3 so that
+    # they exist whatever the in-band filter removes from a comb of >= 10 carriers
+    computed = draw(st.sampled_from([None, [1, 2], [1, 3], [2, 3]])) if nli == 'ggn_approx' and len(comb) >= 10 else None
     # a RamanFiber can only be propagated with the Raman solver enabled (documented: needs --sim-params with flag true;
     # with the flag off RamanFiber.propagate indexes pump rows that the attenuation-only profile does not have)
     return {'eq': eq, 'topo': topo, 'truth': truth, 'src': src, 'dst': dst, 'comb': comb,
             'sim': {'raman_params': {'flag': bool(raman), 'result_spatial_resolution': 10e3,
                                      'solver_spatial_resolution': 10e3},
                     'nli_params': {'method': nli, 'dispersion_tolerance': 1, 'phase_shift_tolerance': 0.1,
-                                   'computed_channels': None}}}
+                                   'computed_channels': computed}}}
 
 
 @st.composite
@@ -317,7 +320,7 @@ def make_check(prop):
         return Check('path-monotonic', path_case(), run_c02, quick=220, thorough=8000,
                      doc='per-element, per-channel ASE/signal and NLI/signal ratios never decrease; passive unchanged')
     if prop == 'C02-raman':
-        return Check('path-monotonic-raman', path_case(n=(2, 3), raman=True, max_ch=12), run_c02, quick=24, thorough=600,
+        return Check('path-monotonic-raman', path_case(n=(2, 3), raman=True, max_ch=12), run_c02, quick=60, thorough=1200,
                      doc='same with RamanFiber spans and the Raman solver on')
     raise KeyError(prop)
 
